@@ -437,6 +437,8 @@ class FaultsProj:
             return a, b, False
         if kind == 'drain':
             return (a, b, True) if self.which == 'client' else None
+        if kind == 'pausedabort':
+            return (a, b, True) if self.which == 'log' else None
         if kind != 'fault':
             return None
         def proj(l):
